@@ -175,6 +175,18 @@ def run_source(kind: str, data: bytes, sched, integ: str, entry: str, tmpdir: st
         raw = _Coop(data, sched)
         r = parse_from(integ, entry, raw if kind == "dribble-raw-coop" else io.BufferedReader(raw))
         log = raw.log
+    elif kind in ("dribble-buffered-after-preamble", "dribble-buffered-peeked"):
+        # a non-seekable buffered reader (sock.makefile('rb'), os.fdopen(pipe, 'rb')) the caller has ALREADY used: it read a
+        # protocol preamble line off it, or peeked at the first bytes - so part of the stream sits in the reader's buffer
+        pre = b"X-Content: jelly\n" if kind.endswith("preamble") else b""
+        raw = sources.DribbleRaw(pre + data, sched if sched and sched[0] > 2 else [64] + list(sched or [1]))
+        f = io.BufferedReader(raw)
+        if pre:
+            f.readline()
+        else:
+            f.peek(2)
+        r = parse_from(integ, entry, f)
+        log = raw.log
     elif kind == "dribble-raw":
         raw = sources.DribbleRaw(data, sched)
         r = parse_from(integ, entry, raw)
@@ -229,7 +241,8 @@ def run_source(kind: str, data: bytes, sched, integ: str, entry: str, tmpdir: st
 
 KINDS = ["gzip-over-nonseekable", "seekable-dribble-buffered", "gzip-over-seekable-dribble", "buffered-tail1-of-16", "buffered-tail2-of-16",
          "buffered-tail1-of-8192", "buffered-tail2-of-8192", "file", "file-raw-buffered", "bytesio-offset", "file-offset", "gzip", "gzip-file", "bz2-file", "lzma-file", "dribble-raw", "dribble-buffered", "pipe-raw", "pipe-buffered",
-         "socket-raw", "socket-buffered", "socket-timeout-raw-fd", "pipe-raw-fd", "dribble-raw-coop", "dribble-buffered-coop"]
+         "socket-raw", "socket-buffered", "socket-timeout-raw-fd", "pipe-raw-fd", "dribble-raw-coop", "dribble-buffered-coop",
+         "dribble-buffered-after-preamble", "dribble-buffered-peeked"]
 
 
 _NEXT_OTHER: list = [None]
